@@ -7,9 +7,11 @@ block normally / leave it with an exception raised in the body.  The abstract st
 (open blocks, status of the lazily imported helper module, watched attributes that are not the original object while no
 block is open, kind of the last top-level event); the transition function is the real `fakesnow.patch` context
 manager (its `__enter__`/`__exit__`, exactly what a `with` statement calls), executed after replaying the state's
-history from a pristine interpreter state (originals reinstated, helper modules un-imported).  Helper modules
-(`from snowflake.connector import connect`, ..., one module that is *not* imported before the first patch) are written
-to /verif/.work at run time.  The reference model is the property text: which attributes have to be the original
+history from a pristine interpreter state (originals reinstated, helper modules un-imported).  Helper modules are
+written to /verif/.work at run time: from-imports under the usual names, under aliases (`connect as sf_connect`,
+`write_pandas as sf_write_pandas`), aliased and un-aliased side by side, each both in a module imported before any
+patch() and in modules that are *not* imported before the first patch() naming them; two such modules use the same
+alias, and one binds the *name* `connect` to write_pandas.  The reference model is the property text: which attributes have to be the original
 object / a working fake after which event.  Where the implementation deviates, exploration continues from the state
 it actually entered (observed status is part of the state), so everything behind a known deviation is still explored.
 
@@ -29,8 +31,12 @@ Clauses
   C20.inside                       after a successful enter every standard and every listed target is not the
                                    original object and works as a fake (connect -> select 1; write_pandas -> rows
                                    arrive)                                               class  target=<kind>[,imported-by=..]
+                                   (for a target in a module patch() has to import: imported-by=this-patch |
+                                   earlier-patch; if the earlier, importing patch() did not list the attribute the
+                                   class is target=unimported-module-attr:<connect|write_pandas>,..,not-listed-then)
   C20.restore_after_exit           after leaving the outermost block every standard and every listed target `is`
                                    the original                                          class  target=<kind>,exit=<mode>
+                                   (target=unimported-module-attr,not-listed-by-importing-patch,exit=<mode> as above)
   C20.restore_after_failed_setup   after an enter that raised, no watched attribute that was the original before
                                    is something else           class  targets=<target list id>[,after-failed-setup]
                                    (the suffix marks attempts made after an earlier failed set-up of the history)
@@ -60,7 +66,9 @@ Not demanded
     refused (if the enter succeeds the block is treated as open);
   * the errno of the error raised by a closed connection (C07's business), only that it raises;
   * whether the body's exception is propagated unchanged (contextlib's job), only that no *other* exception appears;
-  * attributes that are not targets of the block (a from-import in a module that was not listed stays what it was);
+  * attributes that are not targets of the block (a from-import in a module that was not listed stays what it was;
+    a name of a freshly imported module that the block does not list may stay a mock - it is judged when a block
+    lists it);
   * sys.argv[0] and `__name__` seen by the target, main()'s return value, usage texts, sys.path handling;
   * abbreviated long options (`--db`, `--mod`), `-d=VALUE`, `-h` clusters, `--` followed by an option-like token:
     outside the token alphabet / classified "unspecified" by the reference;
